@@ -48,7 +48,7 @@ def shards(tier, seed):
         out.append({'kind': 'targeted', 'items': [['DEFAULT', 12, 9, True], ['POW2_M1', 15, 15, False], ['square_pow2', 17, None, True]], 'budget_s': budget})
     else:
         for p in range(12):
-            out.append({'kind': 'random', 'count': 400, 'budget_s': budget, 'maxw': 10})
+            out.append({'kind': 'random', 'count': 3000, 'budget_s': budget, 'maxw': 12})
         items = []
         for n in (17, 18, 19, 20, 21):
             for mode in ('KARATSUBA', 'add_mul_karatsuba'):
